@@ -605,3 +605,138 @@ Proof.
   - left; reflexivity.
   - apply Forall_forall. intros y Hy. right. exact Hy.
 Qed.
+
+(* ================================================================= C. bounded equality with the oracle, lifted by order invariance *)
+Fixpoint all_lists (vals : list Z) (n : nat) : list (list Z) :=
+  match n with
+  | O => [[]]
+  | S k => flat_map (fun t => map (fun v => v :: t) vals) (all_lists vals k)
+  end.
+Fixpoint pairs_eqb (a b : list (Z * Z)) : bool :=
+  match a, b with
+  | [], [] => true
+  | (x, y) :: a', (u, v) :: b' => (x =? u) && (y =? v) && pairs_eqb a' b'
+  | _, _ => false
+  end.
+Fixpoint zs_eqb (a b : list Z) : bool :=
+  match a, b with
+  | [], [] => true
+  | x :: a', u :: b' => (x =? u) && zs_eqb a' b'
+  | _, _ => false
+  end.
+Definition res_eqb (x y : option (list (Z * Z) * list Z)) : bool :=
+  match x, y with Some (a, b), Some (c, d) => pairs_eqb a c && zs_eqb b d | _, _ => false end.
+Definition okb (r : list Z) : bool := res_eqb (line_canon_Z r) (line_oracle_Z r).
+Definition range (n : nat) : list Z := map Z.of_nat (seq 0 n).
+Definition sweep (n : nat) : bool := forallb okb (all_lists (range n) n).
+Definition line_bound : nat := 6.
+
+Lemma pairs_eqb_eq a b : pairs_eqb a b = true -> a = b.
+Proof.
+  revert b. induction a as [|[x y] a IH]; intros [|[u v] b] H; cbn in H; try discriminate; [reflexivity|].
+  apply andb_true_iff in H. destruct H as [H H3]. apply andb_true_iff in H. destruct H as [H1 H2].
+  apply Z.eqb_eq in H1. apply Z.eqb_eq in H2. subst. f_equal. apply IH. exact H3.
+Qed.
+Lemma zs_eqb_eq a b : zs_eqb a b = true -> a = b.
+Proof.
+  revert b. induction a as [|x a IH]; intros [|u b] H; cbn in H; try discriminate; [reflexivity|].
+  apply andb_true_iff in H. destruct H as [H1 H2]. apply Z.eqb_eq in H1. subst. f_equal. apply IH. exact H2.
+Qed.
+Lemma res_eqb_eq x y : res_eqb x y = true -> x = y.
+Proof.
+  destruct x as [[a b]|], y as [[c d]|]; cbn; try discriminate. intros H.
+  apply andb_true_iff in H. destruct H as [H1 H2]. apply pairs_eqb_eq in H1. apply zs_eqb_eq in H2. subst. reflexivity.
+Qed.
+
+Lemma all_lists_complete vals n r : length r = n -> (forall x, In x r -> In x vals) -> In r (all_lists vals n).
+Proof.
+  revert r. induction n as [|n IH]; intros r Hl Hin.
+  - destruct r; [left; reflexivity|discriminate].
+  - destruct r as [|x t]; [discriminate|]. cbn [all_lists]. apply in_flat_map. exists t. split.
+    + apply IH; [cbn in Hl; lia|]. intros y Hy. apply Hin. right. exact Hy.
+    + apply (in_map (fun v => v :: t) vals x). apply Hin. left. reflexivity.
+Qed.
+
+(* ranks: number of distinct smaller elements *)
+Definition nd (l : list Z) : list Z := nodup Z.eq_dec l.
+Definition rank (l : list Z) (x : Z) : Z := Z.of_nat (length (filter (fun y => y <? x) (nd l))).
+Definition unrank (l : list Z) (i : Z) : Z := hd 0 (filter (fun x => rank l x =? i) (nd l)).
+
+Lemma filter_len_le (p q : Z -> bool) L : (forall y, p y = true -> q y = true) ->
+  (length (filter p L) <= length (filter q L))%nat.
+Proof.
+  intros H. induction L as [|a L IH]; [cbn; lia|]. cbn [filter].
+  destruct (p a) eqn:Ep; [rewrite (H a Ep); cbn; lia|]. destruct (q a); cbn; lia.
+Qed.
+Lemma filter_len_lt (p q : Z -> bool) L a : (forall y, p y = true -> q y = true) ->
+  In a L -> p a = false -> q a = true -> (length (filter p L) < length (filter q L))%nat.
+Proof.
+  intros H. induction L as [|b L IH]; intros Hin Hp Hq; [destruct Hin|]. cbn [filter].
+  destruct Hin as [->|Hin].
+  - rewrite Hp, Hq. cbn [length]. pose proof (filter_len_le p q L H). lia.
+  - specialize (IH Hin Hp Hq). destruct (p b) eqn:Ep; [rewrite (H b Ep); cbn; lia|]. destruct (q b); cbn; lia.
+Qed.
+Lemma nodup_len (l : list Z) : (length (nd l) <= length l)%nat.
+Proof. unfold nd. induction l as [|a l IH]; [cbn; lia|]. cbn [nodup]. destruct (in_dec Z.eq_dec a l); cbn; lia. Qed.
+
+Lemma rank_lt l x y : In x l -> In y l -> (rank l x <? rank l y) = (x <? y).
+Proof.
+  intros Hx Hy. unfold rank. destruct (Z.ltb_spec x y) as [H|H].
+  - apply Z.ltb_lt. apply inj_lt.
+    apply (filter_len_lt _ _ (nd l) x); [intros z Hz; lia| apply nodup_In; exact Hx | lia | lia].
+  - apply Z.ltb_ge. apply inj_le. apply filter_len_le. intros z Hz. lia.
+Qed.
+Lemma rank_inj l x y : In x l -> In y l -> rank l x = rank l y -> x = y.
+Proof.
+  intros Hx Hy H. pose proof (rank_lt l x y Hx Hy) as H1. pose proof (rank_lt l y x Hy Hx) as H2.
+  rewrite H in *. rewrite Z.ltb_irrefl in *. lia.
+Qed.
+Lemma rank_range l x : In x l -> In (rank l x) (range (length l)).
+Proof.
+  intros Hx. unfold rank, range. apply in_map. apply in_seq. split; [lia|]. cbn.
+  assert ((length (filter (fun y => (y <? x)%Z) (nd l)) < length (filter (fun _ => true) (nd l)))%nat).
+  { apply (filter_len_lt _ _ (nd l) x); [auto|apply nodup_In; exact Hx|lia|reflexivity]. }
+  assert (length (filter (fun _ : Z => true) (nd l)) = length (nd l)).
+  { clear. induction (nd l) as [|a t IH]; cbn; [reflexivity|lia]. }
+  pose proof (nodup_len l). lia.
+Qed.
+Lemma unrank_rank l x : In x l -> unrank l (rank l x) = x.
+Proof.
+  intros Hx. unfold unrank.
+  assert (Hall : forall y, In y (filter (fun z => rank l z =? rank l x) (nd l)) -> y = x).
+  { intros y Hy. apply filter_In in Hy. destruct Hy as [Hy1 Hy2]. apply Z.eqb_eq in Hy2.
+    apply (rank_inj l); [apply (nodup_In Z.eq_dec); exact Hy1|exact Hx|exact Hy2]. }
+  assert (Hne : In x (filter (fun z => rank l z =? rank l x) (nd l))).
+  { apply filter_In. split; [apply nodup_In; exact Hx|apply Z.eqb_refl]. }
+  destruct (filter (fun z => rank l z =? rank l x) (nd l)) as [|y t]; [destruct Hne|].
+  cbn [hd]. apply Hall. left. reflexivity.
+Qed.
+
+Lemma sweep_ok : forallb sweep (seq 0 (S line_bound)) = true.
+Proof. vm_compute. reflexivity. Qed.
+
+Theorem line_small_exhaustive (l : list Z) :
+  (length l <= line_bound)%nat -> line_canon_Z l = line_oracle_Z l.
+Proof.
+  intros Hlen.
+  set (r := map (rank l) l).
+  assert (Hr : In r (all_lists (range (length l)) (length l))).
+  { apply all_lists_complete; [unfold r; apply map_length|].
+    intros y Hy. unfold r in Hy. apply in_map_iff in Hy. destruct Hy as (x & <- & Hx). apply rank_range. exact Hx. }
+  assert (Hok : okb r = true).
+  { pose proof sweep_ok as Hs. rewrite forallb_forall in Hs.
+    specialize (Hs (length l)). unfold sweep in Hs. rewrite forallb_forall in Hs. apply Hs; [|exact Hr].
+    apply in_seq. unfold line_bound in *. lia. }
+  apply res_eqb_eq in Hok.
+  assert (Hl : l = map (unrank l) r).
+  { unfold r. rewrite map_map. rewrite <- (map_id l) at 1. apply map_ext_in. intros x Hx. symmetry. apply unrank_rank. exact Hx. }
+  assert (Hmono : forall i j, In i r -> In j r -> (unrank l i <? unrank l j) = (i <? j)).
+  { intros i j Hi Hj. unfold r in Hi, Hj. apply in_map_iff in Hi. apply in_map_iff in Hj.
+    destruct Hi as (x & <- & Hx). destruct Hj as (y & <- & Hy).
+    rewrite !unrank_rank by assumption. symmetry. apply rank_lt; assumption. }
+  assert (HF : Forall (fun i => In i r) r) by (apply Forall_forall; auto).
+  unfold line_canon_Z, line_oracle_Z. rewrite Hl.
+  rewrite (line_canon_map Z Z Z.ltb Z.ltb (unrank l) (fun i => In i r) Hmono r HF).
+  rewrite (line_oracle_map Z Z Z.ltb Z.ltb (unrank l) (fun i => In i r) Hmono r HF).
+  unfold line_canon_Z, line_oracle_Z in Hok. rewrite Hok. reflexivity.
+Qed.
